@@ -134,7 +134,18 @@ fn arithmetic_operand(src: &mut Src) -> ArithmeticOperand {
 }
 
 fn frame_name(src: &mut Src) -> String {
-    src.pick(&["rf", "ro_rx", "q0 xy", "Flux-1", "a/b", "", "x"]).to_string()
+    string_value(src, &["rf", "ro_rx", "q0 xy", "Flux-1", "a/b", "", "x"])
+}
+
+/// A string value: usually one of `pool`, one time in four 1..5 pieces over characters that the
+/// writer has to escape or that end an instruction elsewhere (runs of backslashes and quotes
+/// included).
+fn string_value(src: &mut Src, pool: &[&str]) -> String {
+    if src.chance(3, 4) {
+        return src.pick(pool).to_string();
+    }
+    const PIECES: [&str; 12] = ["\\", "\"", "a", "B", " ", "#", ";", "\n", "\u{e9}", "%", ":", "0"];
+    (0..1 + src.below(5)).map(|_| *src.pick(&PIECES)).collect()
 }
 
 fn frame(src: &mut Src, cfg: &Cfg, vars: &[String]) -> FrameIdentifier {
@@ -201,7 +212,7 @@ pub fn simple(src: &mut Src, cfg: &Cfg, qvars: &[String], pvars: &[String]) -> I
             arguments: (0..src.below(3))
                 .map(|_| if src.chance(1, 2) { PragmaArgument::Identifier(ident::ident(src, 6)) } else { PragmaArgument::Integer(src.below(100) as u64) })
                 .collect(),
-            data: if src.chance(1, 2) { Some(src.pick(&["NAIVE", "two words", "", "x : INTEGER"]).to_string()) } else { None },
+            data: if src.chance(1, 2) { Some(string_value(src, &["NAIVE", "two words", "", "x : INTEGER"])) } else { None },
         }),
         16 => {
             let n = src.below(4);
@@ -281,7 +292,7 @@ pub fn definition(src: &mut Src, cfg: &Cfg) -> Instruction {
             for _ in 0..1 + src.below(3) {
                 let key = src.pick(&["SAMPLE-RATE", "INITIAL-FREQUENCY", "HARDWARE-OBJECT", "DIRECTION", "CENTER-FREQUENCY", "custom_key"]).to_string();
                 let value = if src.chance(1, 2) {
-                    AttributeValue::String(src.pick(&["tx", "q0_rf", "a \"quoted\" name", ""]).to_string())
+                    AttributeValue::String(string_value(src, &["tx", "q0_rf", "a \"quoted\" name", ""]))
                 } else {
                     AttributeValue::Expression(expr(src, &no_ph, &[]))
                 };
@@ -356,7 +367,7 @@ pub fn definition(src: &mut Src, cfg: &Cfg) -> Instruction {
                 instructions: block(src, cfg, &qvars, &pvars),
             })
         }
-        10 => Instruction::Include(Include { filename: src.pick(&["stdgates.quil", "a b.quil", "dir/file", ""]).to_string() }),
+        10 => Instruction::Include(Include { filename: string_value(src, &["stdgates.quil", "a b.quil", "dir/file", ""]) }),
         _ => Instruction::Pragma(Pragma {
             name: "EXTERN".into(),
             arguments: vec![PragmaArgument::Identifier(ident::ident(src, 6))],
